@@ -463,6 +463,164 @@ fn post_cut_checks(r: &mut Runner, what: &str) {
     }
 }
 
+/// C11 after a cut in the file writes of the publication server.
+fn c11_after_cut(
+    r: &mut Runner, what: &str, is_twin: bool,
+    pre_view: &Option<crate::served::RrdpView>,
+) {
+    use crate::served;
+    let (repo_dir, base_uri, jail, cfg) = {
+        let inst = r.world.inst(0);
+        (
+            inst.repo_dir(), inst.cfg.rrdp_base_uri(), inst.cfg.rsync_jail(),
+            inst.cfg.rrdp.clone()
+        )
+    };
+    let mut mem = served::ClientMemory::default();
+    if let Some(view) = pre_view {
+        let _ = mem.observe(
+            view, false, usize::MAX, cfg.min_nr, cfg.min_seconds as i64,
+            seams::now_secs()
+        );
+    }
+    // (1) At the instant after the cut the notification file names files
+    // that exist with the stated hashes, and clients of the earlier
+    // serial can follow.
+    match served::fetch_rrdp(&repo_dir, &base_uri) {
+        Ok((view, problems)) => {
+            for p in problems {
+                r.violation(
+                    "C11", "rrdp_files_inconsistent_after_cut",
+                    format!("{what}: {p}")
+                );
+            }
+            for p in mem.observe(
+                &view, false, usize::MAX, cfg.min_nr,
+                cfg.min_seconds as i64, seams::now_secs()
+            ) {
+                r.violation(
+                    "C11", "rrdp_client_after_cut", format!("{what}: {p}")
+                );
+            }
+        }
+        Err(err) => {
+            r.violation(
+                "C11", "notification_unusable_after_cut",
+                format!("{what}: {err}")
+            );
+        }
+    }
+    if is_twin {
+        // The twin goes through a restart as well.
+        r.world.insts[0].stop();
+        if !matches!(
+            guarded(|| r.world.insts[0].start()), Guarded::Ok(Ok(()))
+        ) {
+            r.violation(
+                "C11", "restart_fails", format!("{what}: twin restart")
+            );
+            return
+        }
+    }
+    // (2) Background work completes the interrupted write. A failed
+    // write is retried by the task an hour later.
+    for round in 0..3 {
+        let res = r.exec_pump();
+        hooks::log(format!("recover pump {res}"));
+        if r.dead.is_some() {
+            r.violation(
+                "C11", "recovery_dies",
+                format!("{what}: pumping ended with {:?}", r.dead)
+            );
+            return
+        }
+        if round == 0 {
+            r.world.advance(3700);
+        }
+    }
+    let compare = |r: &mut Runner, mem: &mut served::ClientMemory, stage: &str| {
+        let Some(content) = crate::c11::content(r) else { return None };
+        let mut serial = None;
+        match served::fetch_rrdp(&repo_dir, &base_uri) {
+            Ok((view, problems)) => {
+                serial = Some((view.session.clone(), view.serial));
+                for p in problems {
+                    r.violation(
+                        "C11", "rrdp_files_inconsistent",
+                        format!("{what} {stage}: {p}")
+                    );
+                }
+                for p in mem.observe(
+                    &view, false, usize::MAX, cfg.min_nr,
+                    cfg.min_seconds as i64, seams::now_secs()
+                ) {
+                    r.violation(
+                        "C11", "rrdp_client", format!("{what} {stage}: {p}")
+                    );
+                }
+                if let Some(d) = served::diff(
+                    "the repository content", &content,
+                    "the RRDP snapshot", &view.snapshot
+                ) {
+                    r.violation(
+                        "C11", "rrdp_write_not_completed",
+                        format!("{what} {stage}: {d}")
+                    );
+                }
+            }
+            Err(err) => r.violation(
+                "C11", "notification_unusable", format!("{what} {stage}: {err}")
+            ),
+        }
+        match served::fetch_rsync(&repo_dir, &jail) {
+            Ok(tree) => {
+                if let Some(d) = served::diff(
+                    "the repository content", &content, "the rsync tree", &tree
+                ) {
+                    r.violation(
+                        "C11", "rsync_write_not_completed",
+                        format!("{what} {stage}: {d}")
+                    );
+                }
+            }
+            Err(err) => r.violation(
+                "C11", "rsync_unreadable", format!("{what} {stage}: {err}")
+            ),
+        }
+        serial
+    };
+    let before = compare(r, &mut mem, "after recovery");
+    // (3) A later publication is written.
+    {
+        let inst = r.world.inst(0);
+        inst.enter();
+        let _ = block_on(inst.mgr().republish_all(true));
+    }
+    for _ in 0..2 {
+        let res = r.exec_pump();
+        hooks::log(format!("later pump {res}"));
+        if r.dead.is_some() {
+            r.violation(
+                "C11", "recovery_dies",
+                format!("{what}: later publication ended with {:?}", r.dead)
+            );
+            return
+        }
+    }
+    let after = compare(r, &mut mem, "after a later publication");
+    if let (Some(before), Some(after)) = (before, after) {
+        if before == after {
+            r.violation(
+                "C11", "later_write_prevented",
+                format!(
+                    "{what}: a forced re-publication of all CAs did not \
+                     produce a new serial (still {}/{})", after.0, after.1
+                )
+            );
+        }
+    }
+}
+
 /// After a restart: no task may be left in the running state and the
 /// recurring tasks must be queued again (C09).
 fn check_restart_queue(r: &mut Runner, what: &str) {
@@ -566,6 +724,17 @@ pub fn run_pair(seed: u64, profile: &CutProfile) -> RunReport {
         let mut cfg_rng = root.fork("config");
         let mut cfg = world::draw_inst_cfg("a", &mut cfg_rng, false);
         cfg.disk = true;
+        if p.fs_only {
+            let mut rrdp_rng = root.fork("rrdp");
+            let (min_nr, max_nr, min_seconds, max_seconds, interval)
+                = crate::ops::draw_rrdp_retention(&mut rrdp_rng);
+            cfg.rrdp.min_nr = min_nr;
+            cfg.rrdp.max_nr = max_nr;
+            cfg.rrdp.min_seconds = min_seconds;
+            cfg.rrdp.max_seconds = max_seconds;
+            cfg.rrdp.interval_min_seconds = interval;
+            cfg.rrdp.archive = rrdp_rng.chance(1, 4);
+        }
         let n_prefix = p.prefix_min
             + cfg_rng.usize(p.prefix_max - p.prefix_min + 1);
         let mut w = World::new(&base_a, START_SECS);
@@ -1064,6 +1233,16 @@ fn run_phase(
             return out
         }
     };
+    // C11: the clients know the state before the unit.
+    let pre_view = if fs_only {
+        let inst = r.world.inst(0);
+        crate::served::fetch_rrdp(
+            &inst.repo_dir(), &inst.cfg.rrdp_base_uri()
+        ).ok().map(|x| x.0)
+    }
+    else {
+        None
+    };
     let pre_sets = if c09.is_some() {
         crate::c09::all_stored_objects(&r)
     }
@@ -1121,6 +1300,18 @@ fn run_phase(
             }
         }
         r.dead = None;
+    }
+    if fs_only {
+        // C11: what is served right after the cut, that the interrupted
+        // write is completed, and that later writes work.
+        c11_after_cut(&mut r, &what, is_twin, &pre_view);
+        debug_phase(&r, &what, &out.result_of_op);
+        let (v, s, kv, fs) = finish_phase(&mut r);
+        out.violations = v;
+        out.stats = s;
+        out.kv = kv;
+        out.fs = fs;
+        return out
     }
     if let Some(baseline) = c09 {
         // C09: restart (done above if the process died), run every due
